@@ -507,6 +507,9 @@ class Body:
                 elif (t[0] == "downcast" and t[2] == "Continue" and e["f"] == 0 and t[1][0] == "call" and t[1][1].endswith("ops::Try>::branch")
                       and len(t[1][2]) == 1 and t[1][2][0][0] == "agg" and t[1][2][0][1] == "adt" and t[1][2][0][3] in ("Ok", "Some") and t[1][2][0][4]):
                     t = t[1][2][0][4][0]     # `Ok(x)?` is x
+                elif (t[0] == "downcast" and t[2] == "Continue" and e["f"] == 0 and t[1][0] == "call" and t[1][1].endswith("ops::Try>::branch")
+                      and len(t[1][2]) == 1 and t[1][2][0][0] == "var" and self._sole_ok_def(t[1][2][0][1], depth) is not None):
+                    t = self._sole_ok_def(t[1][2][0][1], depth)      # the only definition that can take the Continue arm
                 else:
                     t = ("field", t, nm if nm is not None else e["f"], e["f"], e.get("adt"))
             elif isinstance(e, dict) and "idx" in e:
@@ -523,6 +526,36 @@ class Body:
             else:
                 t = ("proj", t, str(e))
         return t
+
+    def _sole_ok_def(self, l, depth=0):
+        """`l` holds a Result/Option built on several paths (an inlined helper's return place): when exactly one
+        definition builds Ok/Some and all others build the failing variant, the success payload is that one's."""
+        memo = self.__dict__.setdefault("_sole_ok", {})
+        if l in memo:
+            return memo[l]
+        memo[l] = None
+        oks = []
+        for (bi, si, kind, payload) in self.defs().get(l, []):
+            if kind == "assign" and payload["rv"]["k"] == "agg" and payload["rv"].get("ak") == "adt":
+                if payload["rv"].get("variant") in ("Ok", "Some"):
+                    oks.append(payload)
+                elif payload["rv"].get("variant") not in ("Err", "None"):
+                    return None
+            elif kind != "assign" and (callee_names(payload)[0] or "").endswith("FromResidual::from_residual"):
+                continue
+            else:
+                return None
+        if len(oks) == 1 and oks[0]["rv"]["fields"] and depth < 30:
+            memo[l] = self.term_of_operand(oks[0]["rv"]["fields"][0], depth + 1)
+            for (bi, si, kind, payload) in self.defs().get(l, []):
+                if payload is oks[0]:
+                    self.__dict__.setdefault("_sole_ok_bb", {})[l] = (bi, oks[0]["rv"].get("vi"))
+        return memo[l]
+
+    def sole_ok_block(self, l):
+        """(block, variant index) of the only successful definition of the Result/Option local `l`, or None."""
+        self._sole_ok_def(l)
+        return self.__dict__.get("_sole_ok_bb", {}).get(l)
 
     def term_of_operand(self, op, depth=0):
         if "k" in op:
